@@ -7,7 +7,7 @@
 set -u
 V="$(cd "$(dirname "$0")/.." && pwd)"
 N="${1:-200}"; shift || true
-PROPS="${*:-C01 C03 C04 C05 C06 C07 C08 C09 C10 C11 C12 C13 C14 C15 C16 C20}"
+PROPS="${*:-C01 C02 C03 C04 C05 C06 C07 C08 C09 C10 C11 C12 C13 C14 C15 C16 C20}"
 export GOFLAGS=-mod=mod GOPROXY=off GOSUMDB=off GOTOOLCHAIN=local
 S=$(mktemp -d /tmp/kcdet.XXXXXX)
 trap 'rm -rf "$S"' EXIT
